@@ -100,7 +100,7 @@ process_lowest = dict(
                 cls_c='BW', member_fields=['_options', '_active_thread_contexts_cache'], siblings=['_process_transit_event', '_cleanup_invalidated_thread_contexts'],
                 methods={'front': 'TEB_front', 'pop_front': 'TEB_pop_front', 'clear': 'NA_clear', 'store': 'FLAG_store'},
                 range_for=[(r'_active_thread_contexts_cache', 'CVec_size', 'CVec_get', 'TCx*')],
-                pre_rules=[(r'_options\.error_notifier\s*\([^;]*\)\s*;', 'ERROR_NOTIFIER(self);', 2),
+                pre_rules=[(r'_options\.error_notifier\s*\([^;]*\)\s*;', 'ERROR_NOTIFIER(self);'),
                            (r'std::atomic<bool>\s*\*', 'FlushFlag*', 1), (r'ThreadContext\s*\*', 'TCx*'), (r'TransitEvent\s*(const\s*)?\*', 'TE*')],
                 rules=[(r'if\s*\(\s*!thread_context\s*\)', 'ANCHOR_TC(self, thread_context); if (!thread_context)', 1)],
                 exceptions=True, may_throw=['BW__process_transit_event'],
